@@ -518,3 +518,9 @@ func (e *NullSafeEquals) Eval(ctx *Context, row Row) (any, error) {
 	}
 	return result == 0, nil
 }
+
+type GetField struct{ table, name string }
+
+func (g *GetField) Eval(ctx *Context, row Row) (any, error) { return nil, nil }
+func (g *GetField) Type(ctx *Context) Type                  { return nil }
+func (g *GetField) IsSameField(o *GetField) bool            { return g.table == o.table && g.name == o.name }
